@@ -678,8 +678,10 @@ def run(ctx):
         "re-packed in place at bit level (same slice sizes; random qindex, lengths, random bits / coded values / dangling values / random "
         "padding); only streams the validator accepts count; non-trivial = accepted stream with at least one non-zero coefficient, distinct by "
         "content hash.  correspondence: slices (<= 96 bytes) cut from those streams + truncated/random mutants through both Coq slice readers.")
-    n_streams = ctx.pick(260, 3000)
-    max_corr = ctx.pick(700, 6000)
+    import time
+    t0 = time.time()
+    n_streams = ctx.pick(200, 3000)
+    max_corr = ctx.pick(420, 6000)
     slice_cases = []   # (p, sx, sy, bytes)
     seen_slices = set()
     accepted = 0
@@ -713,11 +715,12 @@ def run(ctx):
                 continue
             seen_slices.add(h)
             slice_cases.append((s["params"], s["sx"], s["sy"], b))
+    t_streams = time.time() - t0
     if accepted == 0:
         ctx.obligation("harness:C08 generated no accepted stream", False, "harness", "")
     # mutants of the harvested slices: truncated, random bytes, bit flips (LD: too long slice_y_length arises)
     base = list(slice_cases)
-    for (p, sx, sy, b) in base[: ctx.pick(250, 2000)]:
+    for (p, sx, sy, b) in base[: ctx.pick(180, 2000)]:
         k = rng.randrange(4)
         if k == 0 and len(b) > 0:
             m = b[: rng.randrange(0, len(b))]
@@ -748,7 +751,8 @@ def run(ctx):
         metas.append((p, sx, sy, b, dobs, sobs))
         ctx.count(1, key=("slice", hashlib.sha1(repr((jsonable_params(p), sx, sy)).encode() + b).hexdigest()[:16]) if dobs[0] == 0 and dobs[3] else None,
                   bucket="slice:" + {0: "ok", 1: "eof", 3: "bad-y-length", 9: "other"}[dobs[0]])
-    bad = ctx.coq_check_cases("slices", ["Base.PyZ", "Gen.StateRec", "Model.Slices", "Corr.C08"], "chk_slice_case", cases, ty="slice_case", shard=ctx.pick(45, 60))
+    t_slices = time.time() - t0 - t_streams
+    bad = ctx.coq_check_cases("slices", ["Base.PyZ", "Gen.StateRec", "Model.Slices", "Corr.C08"], "chk_slice_case", cases, ty="slice_case", shard=ctx.pick(100, 150))
     for i in (bad or []):
         p, sx, sy, b, dobs, sobs = metas[i]
         save_corpus(ctx, p, sx, sy, b)
@@ -769,7 +773,8 @@ def run(ctx):
         ctx.obligation("corr:dc_prediction model vs implementation", False, "corr-shard", "cases %r" % bad[:5])
     ctx.trusted.append("slice geometry, intlog2, inverse_quant, mean come from coq/Gen (regenerated from /repo on this run)")
     ctx.trusted.append("C08_units_agree (same unit sequence / header values) is checked by the differential oracle only, not by a theorem")
-    ctx.note("%d accepted streams compared, %d slice cases through both Coq readers" % (accepted, len(cases)))
+    ctx.note("%d accepted streams compared, %d slice cases through both Coq readers; %.0fs streams, %.0fs real slice parsers, %.0fs coq"
+             % (accepted, len(cases), t_streams, t_slices, time.time() - t0 - t_streams - t_slices))
 
 
 # ----------------------------------------------------------------------------- corpus
